@@ -17,9 +17,17 @@ RNorm(r) == LET g == GCD(Abs(r[1]), r[2]) IN
 
 R(n, d)   == IF d < 0 THEN RNorm(<<-n, -d>>) ELSE RNorm(<<n, d>>)
 RInt(n)   == <<n, 1>>
-RAdd(a, b) == RNorm(<<a[1] * b[2] + b[1] * a[2], a[2] * b[2]>>)
-RSub(a, b) == RNorm(<<a[1] * b[2] - b[1] * a[2], a[2] * b[2]>>)
-RMul(a, b) == RNorm(<<a[1] * b[1], a[2] * b[2]>>)
+(* Addition and multiplication reduce by common factors BEFORE multiplying  *)
+(* so that intermediate products stay far below 2^31.                       *)
+RAdd(a, b) == LET g == GCD(a[2], b[2]) IN
+              RNorm(<<a[1] * (b[2] \div g) + b[1] * (a[2] \div g), (a[2] \div g) * b[2]>>)
+RSub(a, b) == LET g == GCD(a[2], b[2]) IN
+              RNorm(<<a[1] * (b[2] \div g) - b[1] * (a[2] \div g), (a[2] \div g) * b[2]>>)
+RMul(a, b) == LET g1 == GCD(Abs(a[1]), b[2])
+                  g2 == GCD(Abs(b[1]), a[2])
+                  h1 == IF g1 = 0 THEN 1 ELSE g1
+                  h2 == IF g2 = 0 THEN 1 ELSE g2
+              IN RNorm(<<(a[1] \div h1) * (b[1] \div h2), (a[2] \div h2) * (b[2] \div h1)>>)
 RNeg(a)    == <<-a[1], a[2]>>
 RDiv(a, b) == IF b[1] > 0 THEN RNorm(<<a[1] * b[2], a[2] * b[1]>>)
                           ELSE RNorm(<<-(a[1] * b[2]), -(a[2] * b[1])>>)
